@@ -120,7 +120,8 @@ func (c *ExecCtx) NewSchemaCtx(val any, destPtr any, path *PathBuilder, dtype zc
 func (c *ExecCtx) NewValidateSchemaCtx(valPtr any, path *PathBuilder, dtype zconst.ZogType) *SchemaCtx {
 	c2 := SchemaCtxPool.Get().(*SchemaCtx)
 	c2.ExecCtx = c
-	c2.Data = nil
+	// when validating, the data of a node is the value itself (as for the root and for struct fields): ctx.Issue() refers to it
+	c2.Data = valPtr
 	c2.ValPtr = valPtr
 	c2.Path = path
 	c2.DType = dtype
